@@ -1,7 +1,6 @@
 """C40 -- Predicate formula parse trees are faithful (predicate_formula.parse_predicate_formula / TreeConverter)."""
 import ast
 import json
-import os
 import warnings
 
 from harness import core, predgen
@@ -43,18 +42,14 @@ LEVEL_TEXT = ('Kernel-checked theorems about the model of TreeConverter/parse_pr
               'faithful subset the tree evaluates (documented node semantics, any interpretation of the primitive '
               'operations) to what the expression evaluates to in Python, including evaluation order, short-circuiting '
               'and raised exceptions; supported expressions give JSON-serialisable trees; every node class without a '
-              'visit method, other unary/binary operator or chained comparison is rejected; the converter accepts '
-              'exactly the shape-correct expressions, which refutes the rejection of odd constants and **kwargs on the '
-              'unchanged code (known findings) and is proved for the repaired converter.')
+              'visit method, other unary/binary operator, chained comparison, constant JSON cannot hold and **kwargs call '
+              'is rejected: the converter accepts exactly the supported expressions (the model follows the code after fix '
+              'commits baa04cb and 23a92f9; the old witnesses are regression examples and run first in every check).')
 LEVEL_NOTE = ('Kernel strength: the CPython parser/tokenizer are oracles and the meaning of the primitive operations is a '
               'parameter. The model is hand-written and compared with the running code on every generated case; the set of '
               'visit_* methods is compared with the model constructors on every run.')
 
 IMPORTS = ['Grist.Model.Predicate']
-# Which model the running code is compared with: the code as it is (convert false), or -- only when checking a tree to
-# which notes/proposed_fixes/C40-reject-odd-constants.diff has been applied -- the repaired converter (convert true).
-MODEL_STRICT = os.environ.get('VERIF_C40_REPAIRED') == '1'
-
 warnings.filterwarnings('ignore', category=SyntaxWarning)
 
 
@@ -115,10 +110,14 @@ class Case(object):
     self.in_subset = predgen.in_eval_subset(self.body) if self.body is not None else False
 
 
+# witnesses of the findings repaired by fix commits baa04cb / 23a92f9 (known_findings.json, kind fixed): always first
+REGRESSION = ["rec.A == b'x' or 1e999 > rec.B", 'f(a, **k)', '...', "b'x'", '1j', '1e999', 'f(**k)', 'f(k=1, **d)']
+
+
 def gen_cases(ctx):
   rng = ctx.rng
   g = predgen.Gen(rng)
-  out = [Case(t, 'fixed') for t in predgen.FIXED_FORMULAS]
+  out = [Case(t, 'regression') for t in REGRESSION] + [Case(t, 'fixed') for t in predgen.FIXED_FORMULAS]
   for _ in range(ctx.n(320, 4000)):
     text, recform = predgen.finish(g.formula())
     out.append(Case(text, 'valid', recform))
@@ -212,7 +211,7 @@ def correspond(ctx):
         eval_idx.append(i)
 
   ctx.log('cases: %d formulas, %d evaluation cases; running the model' % (len(coq), len(eval_cases)))
-  bad = ctx.run_cases('parse', IMPORTS, 'c40_case_ok %s' % core.boollit(MODEL_STRICT), coq, shard=150)
+  bad = ctx.run_cases('parse', IMPORTS, 'c40_case_ok', coq, shard=150)
   ctx.log('parse cases evaluated: %d differ' % len(bad))
   for k in bad[:5]:
     c = cs[idx[k]]
